@@ -6,6 +6,7 @@ import (
 	"filippo.io/age/plugin"
 	"fmt"
 	"io"
+	"os"
 	"sort"
 	"strings"
 
@@ -39,6 +40,7 @@ type C11Plan struct {
 	PLen     int      `json:"plen"`
 	Tape     uint64   `json:"tape"`
 	RandFail int      `json:"rand_fail,omitempty"` // k>0: draw k-1 from the CSPRNG fails once (a recipient that draws there fails to wrap)
+	CLI      *C11CLI  `json:"cli,omitempty"`       // the same question asked of the real age binary with real plugin processes (c11_cli.go)
 }
 
 // simRecipient wraps to a real X25519 key and declares labels per variant.
@@ -172,16 +174,19 @@ func (C11) Meta() core.Meta {
 		Level:       "exploration",
 		Rule:        "a case = list of 1..6 recipients (occasionally 40..70, or with recipients emitting stanzas of 3..70 KB so that several KiB of header exist before the refusal), each native (X25519, ssh-ed25519, ssh-rsa: no labels; scrypt: fresh random label) or sim-owned with an interface variant (Recipient only / RecipientWithLabels returning nil / empty / a list in some order, possibly repeating a label) and optionally an injected wrap failure; the differing or failing recipient is placed at every position. Oracle: Encrypt succeeds iff all label sets are equal and no wrap failed; on refusal the destination saw zero Write calls; on success every real recipient decrypts. Non-trivial = at least two recipients or a failure; distinct = distinct recipient-list skeletons.",
 		Assumptions: []string{"label lists may repeat a label; where the set reading and the sorted-list reading of 'same labels' disagree nothing is asserted about acceptance (only that a refusal wrote nothing)", "plugin recipients take part through the plugin.VerifTransport seam with a scripted peer whose whole answer is ready when the client starts reading (all other plugin behaviour is C16's)"},
-		Real:        []string{"filippo.io/age Encrypt (label comparison, wrap loop, header marshal)", "native recipients", "plugin.Recipient (client side of the plugin protocol)"},
+		Real:        []string{"filippo.io/age Encrypt (label comparison, wrap loop, header marshal)", "native recipients", "plugin.Recipient (client side of the plugin protocol)", "cmd/age binary with real plugin processes (one run in 40: shell scripts speaking recipient-v1, one name without a binary)"},
 		Stub:        []string{"sim-owned recipients with chosen label lists / injected wrap failure", "destination (write-call counter)", "crypto/rand.Reader (tape)"},
-		FaultKinds:  []string{"fault.wrap_failure", "fault.csprng_read_fails_once"},
-		Probes:      []string{"probe.equal_sets_different_order", "probe.proper_subset", "probe.disjoint", "probe.empty_vs_absent", "probe.scrypt_with_other", "probe.two_scrypt", "probe.refused_labels", "probe.refused_wrap_failure", "probe.accepted", "probe.fail_at_last_position", "probe.differ_at_last_position", "probe.repeated_label_same_multiset", "probe.repeated_label_sets_differ", "probe.repeated_label_ambiguous", "probe.refused_after_more_than_4KiB_of_header", "probe.labels_with_space_or_empty", "probe.plugin_recipient", "probe.plugin_recipient_from_identity", "probe.embedded_scrypt_recipient"},
+		FaultKinds:  []string{"fault.wrap_failure", "fault.csprng_read_fails_once", "fault.cli_plugin_binary_missing"},
+		Probes:      []string{"probe.equal_sets_different_order", "probe.proper_subset", "probe.disjoint", "probe.empty_vs_absent", "probe.scrypt_with_other", "probe.two_scrypt", "probe.refused_labels", "probe.refused_wrap_failure", "probe.accepted", "probe.fail_at_last_position", "probe.differ_at_last_position", "probe.repeated_label_same_multiset", "probe.repeated_label_sets_differ", "probe.repeated_label_ambiguous", "probe.refused_after_more_than_4KiB_of_header", "probe.labels_with_space_or_empty", "probe.plugin_recipient", "probe.plugin_recipient_from_identity", "probe.embedded_scrypt_recipient", "probe.cli_real_plugin_processes", "probe.cli_refused_list", "probe.cli_accepted_list"},
 	}
 }
 
 var labelPool = []string{"postquantum", "a", "b", "hw", "zz-top", "A"}
 
 func (C11) Generate(r *core.RNG, tier string, idx uint64) interface{} {
+	if idx%40 == 7 && os.Getenv("AGE_BIN") != "" {
+		return &C11Plan{CLI: genC11CLI(r)}
+	}
 	p := &C11Plan{PLen: r.Pick(0, 1, 100), Tape: r.U64() % 1000000}
 	n := r.Range(1, 6)
 	// a base label set shared by most recipients
@@ -333,6 +338,27 @@ func (C11) Generate(r *core.RNG, tier string, idx uint64) interface{} {
 func (C11) Shrinks(plan interface{}) []interface{} {
 	p := plan.(*C11Plan)
 	var out []interface{}
+	if p.CLI != nil {
+		cl := p.CLI
+		for i := range cl.Recips {
+			if len(cl.Recips) > 1 {
+				q := *cl
+				q.Recips = append(append([]string(nil), cl.Recips[:i]...), cl.Recips[i+1:]...)
+				out = append(out, &C11Plan{CLI: &q})
+			}
+		}
+		if cl.PLen > 0 {
+			q := *cl
+			q.PLen = 0
+			out = append(out, &C11Plan{CLI: &q})
+		}
+		if cl.PreExist {
+			q := *cl
+			q.PreExist = false
+			out = append(out, &C11Plan{CLI: &q})
+		}
+		return out
+	}
 	if len(p.Recips) > 1 {
 		for i := range p.Recips {
 			q := *p
@@ -383,6 +409,9 @@ func pureSetKey(ls []string) string {
 
 func (e C11) Execute(plan interface{}, c *core.Ctx) *core.Verdict {
 	p := plan.(*C11Plan)
+	if p.CLI != nil {
+		return e.execCLI(p.CLI, c)
+	}
 	var recips []age.Recipient
 	var plugins []*simPlugin // in list order: Encrypt wraps in list order, each Wrap opens one connection
 	calls := make([]int, len(p.Recips))
